@@ -336,6 +336,39 @@ def check_case(sub, case, sample=True):
             _judge_text(sub, case, dialect_name, f, column, shown)
         else:
             sub.cls("neutral:date-type")
+    _check_built_by_program(sub, case, cid, table, dialect, dialect_name, columns)
+
+
+def _check_built_by_program(sub, case, cid, table, dialect, dialect_name, columns):
+    """The same fields put together by program (Cid.add_field_format with field formats built through their
+    constructors, text-like ones with a value of their own to stand in for an empty cell): column names, quoting,
+    types and nullability are the same as for the CID read from rows ('default' clauses are left open)."""
+    built = interface.Cid()
+    try:
+        built.add_data_format_row(["Format", case["format"]])
+        built.data_format.validate()
+        for number, (field, declared) in enumerate(zip(cid.field_formats, case["fields"])):
+            arguments = [declared["name"], bool(declared["empty"].strip()), declared["length"], declared["rule"],
+                         built.data_format]
+            if type(field).__name__ in ("TextFieldFormat", "PatternFieldFormat"):
+                arguments.append(["n/a", "", "?", None][number % 4])
+            built.add_field_format(type(field)(*arguments))
+        statement = sql.SqlFactory(built, table, dialect).create_table_statement()
+        _, built_columns = parse_create_table(statement)
+    except Exception as error:
+        sub.fail("C19|built-by-program|%s|%s" % (type(error).__name__, dialect_name), case,
+                 "the same fields added by program: %s: %s" % (type(error).__name__, error))
+        return
+    sub.evaluations += 1
+
+    def essence(column):
+        return (column["name"], column["quoted"], column["not_null"], type_text(column))
+
+    if [essence(c) for c in built_columns] != [essence(c) for c in columns]:
+        sub.fail("C19|built-by-program|columns-differ|%s" % dialect_name, case,
+                 "read from rows / the same fields added by program: %r" % (
+                     [(_column_text(a), _column_text(b)) for a, b in zip(columns, built_columns)
+                      if essence(a) != essence(b)] or [len(columns), len(built_columns)],))
 
 
 def _column_text(column):
@@ -676,7 +709,8 @@ def text_fields(draw, fmt, empty):
 @st.composite
 def cid_cases(draw):
     dialect_name = draw(st.sampled_from(DIALECT_NAMES))
-    fmt = draw(st.sampled_from(["Delimited", "Delimited", "Fixed"]))
+    # what the data are stored in says nothing about the table they go to
+    fmt = draw(st.sampled_from(["Delimited", "Delimited", "Fixed", "Excel", "ODS"]))
     used = set()
     fields = []
     for index in range(draw(st.integers(1, 6))):
